@@ -78,8 +78,17 @@ FetchBulkAllowed(ev) ==
 \* dereferenced): whatever the index, the operation aborts
 FetchStraddleAllowed(ev) == ev.out = "abort"
 
+\* C10: unverified_safe_pointer_because(count) on a pointer cell: the pointer handed out is the
+\* one whose range of count elements was found inside the sandbox (null: handed out as null)
+FetchSafePtrAllowed(ev) ==
+  Some(ev.script, LAMBDA b :
+         IF IsZero(b) THEN ev.out = "abort" \/ (ev.out = "ok" /\ ev.rnull)
+         ELSE IF ToInt(b) + ev.count * ev.gs > ev.size THEN ev.out = "abort"
+         ELSE ev.out = "ok" /\ ~ev.rnull /\ Eq(ev.r, b))
+
 FetchAllowed(ev) ==
   CASE ev.kind = "index" -> FetchIndexAllowed(ev)
+    [] ev.kind = "safeptr" -> FetchSafePtrAllowed(ev)
     [] ev.kind = "straddle" -> FetchStraddleAllowed(ev)
     [] ev.kind = "ptrbase" -> FetchPtrBaseAllowed(ev)
     [] ev.kind = "deref" -> FetchDerefAllowed(ev)
